@@ -176,53 +176,67 @@ theorem imageF_right_false (umap vmap : Option (List (Int × Int))) (ubad vbad :
     imageF umap vmap ubad vbad Q fa (f+1) u (-1) cache m = (.ok (-1, cache), m) := by
   unfold imageF; simp
 
+/-- the example manager with the context flag set to `c` -/
+def imgM3c (c : Bool) : Mgr := { imgM3 with ctx := c }
+
+theorem imgM3c_inv (c : Bool) : Inv (imgM3c c) := imgM3_inv.setCtx c
+theorem imgM3c_nvars' (c : Bool) : (imgM3c c).nvars = 3 := imgM3_nvars'
+theorem imgM3c_tbl (c : Bool) : (imgM3c c).tbl = imgM3.tbl := rfl
+
 /-- the run of `_image` on the non-injective renaming `{a: b, c: b}` (levels `{0: 1, 2: 1}`),
-`u` = TRUE, `v = a ∧ ¬c`, `qvars = {b}`, existential: the code returns a reference of TRUE -/
-theorem imgM3_noninj_run :
-    ∃ r c m', imageF none (some [(0, 1), (2, 1)]) [] [] [1] false 10 1 (-3) {} imgM3 =
+`u` = TRUE, `v = a ∧ ¬c`, `qvars = {b}`, existential: the code returns a reference of TRUE (whatever the context flag) -/
+theorem imgM3_noninj_run_ctx (cx : Bool) :
+    ∃ r c m', imageF none (some [(0, 1), (2, 1)]) [] [] [1] false 10 1 (-3) {} (imgM3c cx) =
       (.ok (r, c), m') ∧ ∀ a, den m'.tbl r a = true := by
-  have hW := imgM3_inv.wf.toWF
+  have hW := (imgM3c_inv cx).wf.toWF
   -- the call `(1, ¬c)`: covered by the specification (one variable in the support)
   obtain ⟨r1, c1, m1, e1, hI1, hE1, hF1, _, hr1, hd1⟩ := imageF_spec_preimage [(0, 1), (2, 1)]
-    [1] false (fun _ => 1) (fun j => j = 2) 9 imgM3 1 (-2) {} imgM3_inv rfl (mem_one _)
+    [1] false (fun _ => 1) (fun j => j = 2) 9 (imgM3c cx) 1 (-2) {} (imgM3c_inv cx) rfl (mem_one _)
     (imgM3_mem _ (by decide))
     (fun j h => by
       have h1 := h.ge hW
       have h2 := h.lt_nvars hW
-      rw [levelOf_neg, imgM3_levelOf2] at h1
-      rw [imgM3_nvars] at h2
+      rw [imgM3c_tbl, levelOf_neg, imgM3_levelOf2] at h1
+      rw [imgM3c_tbl, imgM3_nvars] at h2
       omega)
-    (fun j hj => by subst hj; rw [imgM3_nvars']; decide)
-    (by rw [imgM3_nvars']; decide)
+    (fun j hj => by subst hj; rw [(imgM3c_nvars' cx)]; decide)
+    (by rw [(imgM3c_nvars' cx)]; decide)
     (fun j j' hj hj' h => by omega)
     (IMemo.empty _ _ _ _ _)
-    (by rw [imgM3_nvars', imgM3_levelOf1, levelOf_neg, imgM3_levelOf2]; omega)
+    (by rw [(imgM3c_nvars' cx), imgM3c_tbl, imgM3_levelOf1, levelOf_neg, imgM3_levelOf2]; omega)
   have hoff1 : m1.lastLen = none := by rw [hF1.lastLen]; rfl
   have hr1t : ∀ a, den m1.tbl r1 a = true := by
     intro a
     rw [hd1 a]
     refine ⟨upd a 1 false, agreeOff_upd (by simp) false (AgreeOff.refl _ _), ?_⟩
     dsimp only
-    rw [den_one, den_neg imgM3.tbl hW 2 _ (imgM3_mem _ (by decide)), imgM3_den2]
+    rw [imgM3c_tbl, den_one, den_neg imgM3.tbl imgM3_inv.wf.toWF 2 _ (imgM3_mem _ (by decide)), imgM3_den2]
     simp [upd]
   obtain ⟨r2, m2, e2, hp2⟩ := ite_spec_off m1 hI1 hoff1 (-1) 1 r1 (mem_neg_one _) (mem_one _) hr1
   refine ⟨r2, c1.insert (1, -3) r2, m2, ?_, ?_⟩
-  · show imageF none (some [(0, 1), (2, 1)]) [] [] [1] false (9+1) 1 (-3) {} imgM3 = _
+  · show imageF none (some [(0, 1), (2, 1)]) [] [] [1] false (9+1) 1 (-3) {} (imgM3c cx) = _
     unfold imageF
     have hA : ¬ ((1 : Int) = -1 ∨ (-3 : Int) = -1) := by decide
     have hB : ¬ ((-3 : Int) = 1) := by decide
-    have h1 : imgM3.tbl.levelOf? 1 = some 3 := by
-      rw [Tbl.levelOf?_eq _ _ (mem_one _), imgM3_levelOf1]
-    have h2 : imgM3.tbl.levelOf? (-3) = some 0 := by decide
+    have h1 : (imgM3c cx).tbl.levelOf? 1 = some 3 := by
+      rw [imgM3c_tbl, Tbl.levelOf?_eq _ _ (mem_one _), imgM3_levelOf1]
+    have h2 : (imgM3c cx).tbl.levelOf? (-3) = some 0 := by rw [imgM3c_tbl]; decide
     have hi : mapLvl (some [(0, 1), (2, 1)]) ((0 : Nat) : Int) = 1 := by decide
     have hz : min ((3 : Nat) : Int) 1 = 1 := by decide
-    have hc1 : topCofactorI imgM3.tbl 1 1 = .ok (1, 1) := by rfl
-    have hc2 : topCofactorI imgM3.tbl (-3) (((0 : Nat) : Int) + 1 - 1) = .ok (-1, -2) := by rfl
+    have hc1 : topCofactorI (imgM3c cx).tbl 1 1 = .ok (1, 1) := by rfl
+    have hc2 : topCofactorI (imgM3c cx).tbl (-3) (((0 : Nat) : Int) + 1 - 1) = .ok (-1, -2) := by rfl
     have hq : (0 : Int) ≤ 1 ∧ [1].contains (1 : Int).toNat = true := by decide
     simp only [hA, hB, and_false, if_false, List.contains_nil, Bool.false_eq_true, HashMap.getElem?_empty, h1, h2, hi, hz, hc1, hc2,
       imageF_right_false, e1, hq, and_self, if_true, Bool.false_eq_true, e2]
   · intro a
     rw [hp2.den a, den_neg_one, hr1t a]
     rfl
+
+
+/-- the run of `_image` on the non-injective renaming `{a: b, c: b}` (levels `{0: 1, 2: 1}`),
+`u` = TRUE, `v = a ∧ ¬c`, `qvars = {b}`, existential: the code returns a reference of TRUE -/
+theorem imgM3_noninj_run :
+    ∃ r c m', imageF none (some [(0, 1), (2, 1)]) [] [] [1] false 10 1 (-3) {} imgM3 =
+      (.ok (r, c), m') ∧ ∀ a, den m'.tbl r a = true := imgM3_noninj_run_ctx false
 
 end DD
